@@ -567,7 +567,9 @@ class CCITTFaxDecoder(CCITTG4Parser):
 
 def ccittfaxdecode(data: bytes, params: Dict[str, object]) -> bytes:
     K = params.get("K")
-    if K == -1:
+    # ISO 32000-1 Table 11: every negative K selects pure two-dimensional
+    # (Group 4) encoding, not only -1
+    if isinstance(K, (int, float)) and K < 0:
         # ISO 32000-1 Table 11: the default width is 1728 pixels
         cols = cast(int, params.get("Columns", 1728))
         bytealign = cast(bool, params.get("EncodedByteAlign"))
